@@ -242,6 +242,20 @@ def worlds():
     for cname, mk in (("l2cost", co.L2Cost), ("gvcost", co.GaussianVarCost), ("covcost", co.GaussianCovCost), ("cusum", cs.CUSUM),
                       ("l2saving", asc.L2Saving)):
         W["two-" + cname] = ((lambda mk=mk: {"s": mk(), "t": mk()}), {"sets": [], "data": ("A", "B")})
+    # two detectors of one class (own scorers): instance-independent state hidden in class attributes / module globals
+    W["two-pelt"] = (lambda: {"d1": cd.PELT(co.L2Cost(), penalty_scale=0.05, min_segment_length=1),
+                              "d2": cd.PELT(co.L2Cost(), penalty_scale=0.5, min_segment_length=2)}, {"sets": [], "data": ("A", "B")})
+    W["two-mw"] = (lambda: {"d1": cd.MovingWindow(bandwidth=2, threshold_scale=0.1), "d2": cd.MovingWindow(bandwidth=3, threshold_scale=None, level=0.3)},
+                   {"sets": [], "data": ("A", "H")})
+    W["two-sbs"] = (lambda: {"d1": cd.SeededBinarySegmentation(threshold_scale=0.3, min_segment_length=1, max_interval_length=8),
+                             "d2": cd.SeededBinarySegmentation(threshold_scale=0.3, min_segment_length=2, max_interval_length=6, growth_factor=2.0)},
+                    {"sets": [], "data": ("A", "B")})
+    W["two-cbs"] = (lambda: {"d1": ad.CircularBinarySegmentation(threshold_scale=0.05, min_segment_length=1, max_interval_length=8),
+                             "d2": ad.CircularBinarySegmentation(threshold_scale=0.05, min_segment_length=2, max_interval_length=8)},
+                    {"sets": [], "data": ("A", "B")})
+    W["two-capa"] = (lambda: {"d1": ad.CAPA(collective_penalty_scale=0.1, point_penalty_scale=0.05, min_segment_length=2, max_segment_length=100),
+                              "d2": ad.MVCAPA(collective_penalty_scale=0.1, point_penalty_scale=0.1, min_segment_length=3, max_segment_length=4)},
+                     {"sets": [], "data": ("A", "B")})
     W["two-localscore-cov"] = (lambda: {"s": asc.LocalAnomalyScore(co.GaussianCovCost()), "t": asc.LocalAnomalyScore(co.GaussianCovCost())},
                                {"sets": [], "data": ("Ap", "B")})
     W["two-pelt-cov"] = (lambda: {"p1": cd.PELT(co.GaussianCovCost(), penalty_scale=0.05, min_segment_length=3),
@@ -626,7 +640,7 @@ class Explorer:
 _MISSING = object()
 
 
-BIG = ("shared-cost", "sta", "saving-shared", "mw-cbs-shared", "sta-mw", "two-pelt-cov")
+BIG = ("shared-cost", "sta", "saving-shared", "mw-cbs-shared", "sta-mw", "two-pelt-cov", "two-pelt", "two-mw", "two-sbs", "two-cbs", "two-capa")
 
 
 def depth_for(wname, tier):
